@@ -50,7 +50,12 @@ func (g *Gen) noteCallee(fg *FG, c *Contract) {
 }
 func (g *Gen) globalsSeen(fg *FG) []string      { return g.globals[fg] }
 func (g *Gen) addGlobalSeen(fg *FG, n string)   { g.globals[fg] = append(g.globals[fg], n) }
-func (g *Gen) nonblockingFn(name string) bool   { return g.nonblocking[name] }
+func (g *Gen) nonblockingFn(name string) bool {
+	if c := g.ct.C[name]; c != nil && c.Nonblocking {
+		return true
+	}
+	return g.nonblocking[name]
+}
 func (g *Gen) canInline(fn *ssa.Function) bool {
 	if fn.Blocks == nil || fn.Recover != nil && false {
 		return false
@@ -356,6 +361,13 @@ func loadGen(patterns []string, overlay map[string][]byte) (*Gen, error) {
 			case *ssa.Function:
 				g.indexFn(x)
 			case *ssa.Type:
+				if named, ok := x.Type().(*types.Named); ok {
+					for i := 0; i < named.NumMethods(); i++ {
+						if f := prog.FuncValue(named.Method(i)); f != nil {
+							g.indexFn(f)
+						}
+					}
+				}
 				for _, t := range []types.Type{x.Type(), types.NewPointer(x.Type())} {
 					ms := prog.MethodSets.MethodSet(t)
 					for i := 0; i < ms.Len(); i++ {
@@ -367,7 +379,48 @@ func loadGen(patterns []string, overlay map[string][]byte) (*Gen, error) {
 			}
 		}
 	}
+	// instances of generic functions reachable from the loaded code
+	seenInst := map[*ssa.Function]bool{}
+	var work []*ssa.Function
+	for _, f := range g.fnIndex {
+		work = append(work, f)
+	}
+	for len(work) > 0 {
+		f := work[len(work)-1]
+		work = work[:len(work)-1]
+		if seenInst[f] {
+			continue
+		}
+		seenInst[f] = true
+		for _, a := range f.AnonFuncs {
+			work = append(work, a)
+		}
+		for _, b := range f.Blocks {
+			for _, in := range b.Instrs {
+				var callee *ssa.Function
+				switch x := in.(type) {
+				case ssa.CallInstruction:
+					callee = x.Common().StaticCallee()
+				}
+				if callee != nil && len(callee.TypeArgs()) > 0 && callee.Blocks != nil {
+					k := g.instKey(callee)
+					if _, ok := g.fnIndex[k]; !ok {
+						g.fnIndex[k] = callee
+					}
+					work = append(work, callee)
+				}
+			}
+		}
+	}
 	return g, nil
+}
+
+func (g *Gen) instKey(fn *ssa.Function) string {
+	var parts []string
+	for _, t := range fn.TypeArgs() {
+		parts = append(parts, types.TypeString(t, func(p *types.Package) string { return p.Name() }))
+	}
+	return g.keyOf(fn) + "[" + strings.Join(parts, ",") + "]"
 }
 
 func (g *Gen) indexFn(f *ssa.Function) {
